@@ -4,6 +4,7 @@ Each model is part of the trusted base and its use is counted in the evidence.
 A model returns (guard_after, value); panicking behaviour is expressed with
 ex.oblige('panic', guard & cond, msg) and the guard is narrowed accordingly.
 """
+import os
 import re
 import z3
 
@@ -109,7 +110,7 @@ def _is_derive(name):
         return False
     path, l1, c1, l2, c2 = m.group(1), int(m.group(2)), int(m.group(3)), int(m.group(4)), int(m.group(5))
     try:
-        line = open('/repo/' + path).read().split('\n')[l1 - 1]
+        line = open(os.path.join(os.environ.get('VERIF_REPO', '/repo'), path)).read().split('\n')[l1 - 1]
     except OSError:
         return False
     return l1 == l2 and re.fullmatch(r'[A-Za-z_:]+', line[c1 - 1:c2 - 1]) is not None and 'derive' in line
@@ -241,6 +242,46 @@ def m_option_map_or(ex, m, argv, guard, st, callee):
     return guard, default
 
 
+def m_option_map(ex, m, argv, guard, st, callee):
+    o, f = argv
+    some = option_is_some(o)
+    none = EnumV(ex.defs.find_enum('Option'), bv(0, 64), {'None': ()})
+    if 'Some' not in o.variants or z3.is_false(zsimp(some)):
+        return guard, none
+    st2 = st.copy()
+    g2, v = call_closure(ex, f, [o.variants['Some'][0]], zand(guard, some), st2)
+    return zor(zand(guard, znot(some)), g2), option(ex, some, v)
+
+
+def m_slice_get(ex, m, argv, guard, st, callee):
+    s = as_slice(ex, st, argv[0])
+    which = m.group(1)
+    if which == 'get':
+        i = argv[1]
+        if not is_z3(i):
+            raise Unsupported("slice::get with a range")
+    elif which == 'first':
+        i = bv(0, 64)
+    else:
+        i = s.length - bv(1, 64)
+    ok = z3.ULT(i, s.length) if which != 'last' else s.length != bv(0, 64)
+    if not s.backing:
+        return guard, EnumV(ex.defs.find_enum('Option'), bv(0, 64), {'None': ()})
+    return guard, option(ex, ok, ValRef(select(s.backing, s.start + i)))
+
+
+def m_char_to_digit(ex, m, argv, guard, st, callee):
+    c, radix = argv
+    r = zsimp(radix)
+    if not z3.is_bv_value(r):
+        raise Unsupported("char::to_digit with a symbolic radix")
+    r = r.as_long()
+    d = zite(zand(z3.UGE(c, bv(0x30, 32)), z3.ULE(c, bv(0x39, 32))), c - bv(0x30, 32),
+             zite(zand(z3.UGE(c | bv(0x20, 32), bv(0x61, 32)), z3.ULE(c | bv(0x20, 32), bv(0x7a, 32))),
+                  (c | bv(0x20, 32)) - bv(0x61 - 10, 32), bv(99, 32)))
+    return guard, option(ex, z3.ULT(d, bv(r, 32)), d)
+
+
 def m_option_is(ex, m, argv, guard, st, callee):
     o = deref_any(ex, st, argv[0])
     r = option_is_some(o)
@@ -310,6 +351,95 @@ def m_checked(ex, m, argv, guard, st, callee):
     full = ex.binop({'add': 'AddWithOverflow', 'sub': 'SubWithOverflow', 'mul': 'MulWithOverflow'}[op], a, b, ty)
     r, ovf = full.fields
     return guard, option(ex, znot(ovf), r)
+
+
+def m_overflowing(ex, m, argv, guard, st, callee):
+    ty, op = m.group(1), m.group(2)
+    a, b = argv
+    full = ex.binop({'add': 'AddWithOverflow', 'sub': 'SubWithOverflow', 'mul': 'MulWithOverflow'}[op], a, b, ty)
+    return guard, full
+
+
+def m_saturating(ex, m, argv, guard, st, callee):
+    ty, op = m.group(1), m.group(2)
+    w, signed = int_info(ty)
+    a, b = argv
+    r, ovf = ex.binop({'add': 'AddWithOverflow', 'sub': 'SubWithOverflow', 'mul': 'MulWithOverflow'}[op], a, b, ty).fields
+    if not signed:
+        lim = bv(0, w) if op == 'sub' else bv((1 << w) - 1, w)
+        return guard, zite(ovf, lim, r)
+    mx, mn = bv((1 << (w - 1)) - 1, w), bv(-(1 << (w - 1)), w)
+    if op == 'add':
+        lim = zite(b < 0, mn, mx)
+    elif op == 'sub':
+        lim = zite(b < 0, mx, mn)
+    else:
+        lim = zite((a < 0) != (b < 0), mn, mx)
+    return guard, zite(ovf, lim, r)
+
+
+def m_int_minmax_method(ex, m, argv, guard, st, callee):
+    ty, which = m.group(1), m.group(2)
+    return m_minmax(ex, re.match(r'(.*) (max|min)', '%s %s' % (ty, which)), argv, guard, st, callee)
+
+
+def m_bits(ex, m, argv, guard, st, callee):
+    ty, which = m.group(1), m.group(2)
+    w, signed = int_info(ty)
+    a = argv[0]
+    if which == 'count_ones':
+        r = bv(0, 32)
+        for i in range(w):
+            r = r + z3.ZeroExt(31, z3.Extract(i, i, a))
+        return guard, r
+    if which in ('leading_zeros', 'trailing_zeros'):
+        r = bv(w, 32)
+        rng = range(w) if which == 'leading_zeros' else range(w - 1, -1, -1)
+        for i in rng:
+            n = (w - 1 - i) if which == 'leading_zeros' else i
+            r = zite(z3.Extract(i, i, a) == bv(1, 1), bv(n, 32), r)
+        return guard, r
+    if which == 'is_power_of_two':
+        return guard, zand(a != bv(0, w), (a & (a - bv(1, w))) == bv(0, w))
+    if which == 'abs':
+        ex.oblige('panic', zand(guard, a == bv(-(1 << (w - 1)), w)), 'abs overflow')
+        return guard, zite(a < 0, -a, a)
+    if which == 'unsigned_abs':
+        return guard, zite(a < 0, -a, a)
+    raise Unsupported(which)
+
+
+def m_ascii_pred(ex, m, argv, guard, st, callee):
+    ty, which = m.group(1), m.group(2)
+    v = deref_any(ex, st, argv[0])
+    w = v.size()
+    c = lambda x: bv(x, w)
+    rng = lambda lo, hi: zand(z3.UGE(v, c(lo)), z3.ULE(v, c(hi)))
+    lower, upper, digit = rng(0x61, 0x7a), rng(0x41, 0x5a), rng(0x30, 0x39)
+    table = {
+        'is_ascii': z3.ULE(v, c(127)),
+        'is_ascii_graphic': rng(0x21, 0x7e),
+        'is_ascii_digit': digit,
+        'is_ascii_lowercase': lower,
+        'is_ascii_uppercase': upper,
+        'is_ascii_alphabetic': zor(lower, upper),
+        'is_ascii_alphanumeric': zor(lower, upper, digit),
+        'is_ascii_hexdigit': zor(digit, rng(0x41, 0x46), rng(0x61, 0x66)),
+        'is_ascii_punctuation': zor(rng(0x21, 0x2f), rng(0x3a, 0x40), rng(0x5b, 0x60), rng(0x7b, 0x7e)),
+        'is_ascii_whitespace': zor(v == c(0x20), v == c(0x09), v == c(0x0a), v == c(0x0c), v == c(0x0d)),
+        'is_ascii_control': zor(z3.ULE(v, c(0x1f)), v == c(0x7f)),
+    }
+    if which in table:
+        return guard, table[which]
+    if which == 'to_ascii_lowercase':
+        return guard, zite(upper, v | c(0x20), v)
+    if which == 'to_ascii_uppercase':
+        return guard, zite(lower, v & c(0xdf if w == 8 else 0xffffffdf), v)
+    if which == 'eq_ignore_ascii_case':
+        o = deref_any(ex, st, argv[1])
+        lo = lambda x: zite(zand(z3.UGE(x, c(0x41)), z3.ULE(x, c(0x5a))), x | c(0x20), x)
+        return guard, lo(v) == lo(o)
+    raise Unsupported(which)
 
 
 def m_saturating_sub(ex, m, argv, guard, st, callee):
@@ -563,6 +693,29 @@ def m_iter_next_if(ex, m, argv, guard, st, callee):
     return out
 
 
+def m_iter_any(ex, m, argv, guard, st, callee):
+    """<slice::Iter<T> as Iterator>::any(closure): disjunction over the elements in range (the closures
+    admitted here are pure, so short-circuiting is unobservable)."""
+    it = _iter_get(ex, st, argv[0])
+    s = it.f['slice']
+    target = find_closure(ex, re.search(r'\{closure@[^}]*\}', callee).group(0))
+    res = []
+    cl = argv[1]
+    g_all = guard
+    for j, elem in enumerate(s.backing):
+        active = zsimp(zand(z3.ULE(s.start + it.f['pos'], bv(j, 64)), z3.ULT(bv(j, 64), s.start + s.length)))
+        if z3.is_false(active):
+            continue
+        item = ValRef(elem) if it.f['by_ref'] else elem
+        first = target.fn.params[0][1]
+        a0 = cl
+        if first.startswith('&') and not isinstance(cl, (ValRef, PlaceRef)):
+            a0 = ValRef(cl)
+        g2, b = ex.call_function(target.fn, [a0, item], zand(guard, active), st.copy())
+        res.append(zand(active, b))
+    return guard, zor(*res)
+
+
 def m_try_branch(ex, m, argv, guard, st, callee):
     r = argv[0]
     cf = ex.defs.find_enum('ControlFlow')
@@ -594,7 +747,8 @@ def m_from_residual(ex, m, argv, guard, st, callee):
         src = re.search(r'FromResidual<Result<(?:std::convert::)?Infallible, (.*?)>>>::from_residual$', callee)
         dst = generic_args(m.group(2))
         if src and dst and strip_paths(src.group(1)) != strip_paths(dst[-1]):
-            raise Unsupported("from_residual with error conversion %s -> %s" % (src.group(1), dst[-1]))
+            # `From::from` on the error is total: the result is an Err whose payload is not modelled
+            return guard, EnumV(ex.defs.find_enum('Result'), bv(1, 64), {'Err': (Opaque('converted error'),)})
         return guard, EnumV(ex.defs.find_enum('Result'), bv(1, 64), {'Err': (e,)})
     if kind == 'Option':
         return guard, EnumV(ex.defs.find_enum('Option'), bv(0, 64), {'None': ()})
@@ -652,6 +806,24 @@ def m_vec_push(ex, m, argv, guard, st, callee):
     return guard, UNIT
 
 
+def m_vec_deref(ex, m, argv, guard, st, callee):
+    v = _vec_get(ex, st, argv[0])
+    items = v.f['items'].fields
+    filler = None
+    for x in items:
+        if x is not None:
+            filler = x
+            break
+    if filler is None:
+        return guard, SliceRef([], bv(0, 64), bv(0, 64))
+    return guard, SliceRef([x if x is not None else filler for x in items], bv(0, 64), v.f['len'])
+
+
+def m_vec_is_empty(ex, m, argv, guard, st, callee):
+    v = _vec_get(ex, st, argv[0])
+    return guard, v.f['len'] == bv(0, 64)
+
+
 def m_maybeuninit_write(ex, m, argv, guard, st, callee):
     ref = argv[0]
     if not isinstance(ref, PlaceRef):
@@ -671,15 +843,21 @@ def register(ex):
     _EX[0] = ex
     A = ex.add_model
     A(r'^(?:std::vec::)?Vec::<.*>::(len|capacity)$', m_vec_len, 'Vec::len/capacity (fixed-slot model)')
+    A(r'^<(?:std::vec::)?Vec<.*> as (?:std::ops::)?Deref>::deref$', m_vec_deref, 'Vec::deref (slice over the fixed-slot model)')
+    A(r'^(?:std::vec::)?Vec::<.*>::as_slice$', m_vec_deref, 'Vec::as_slice')
+    A(r'^(?:std::vec::)?Vec::<.*>::is_empty$', m_vec_is_empty, 'Vec::is_empty')
     A(r'^(?:std::vec::)?Vec::<.*>::push$', m_vec_push, 'Vec::push (fixed-slot model, growth beyond the slots is a bound obligation)')
     A(r'^(?:std::mem::)?MaybeUninit::<.*>::write$', m_maybeuninit_write, 'MaybeUninit::write')
-    A(r'^(?:core::fmt::rt::Argument::<.*>::new_\w+|(?:std::fmt::|core::fmt::)?Arguments::<.*>::(?:new|new_const|new_v1|from_str)\b.*)$', m_fmt_opaque, 'fmt::Arguments construction (opaque; only feeds panic messages)')
+    A(r'^(?:core::fmt::rt::Argument::<.*>::new_\w+(?:::<.*>)?|(?:std::fmt::|core::fmt::)?Arguments::<.*>::(?:new|new_const|new_v1|from_str)\b.*)$', m_fmt_opaque, 'fmt::Arguments construction (opaque; only feeds panic messages)')
     A(r'^<(.*) as (?:std::cmp::)?PartialEq(?:<.*>)?>::(eq|ne)$', m_partial_eq, 'PartialEq::eq/ne (structural for primitives and derived impls)')
     A(r'^<(.*) as (?:std::clone::)?Clone>::clone$', m_clone, 'Clone::clone (identity for primitives and derived impls)')
     A(r'^<(?:std::boxed::)?Box<.*> as (?:std::convert::)?AsRef<.*>>::as_ref$', m_box_as_ref, 'Box::as_ref')
     A(r'^(?:std::boxed::)?Box::<.*>::new$', m_box_new, 'Box::new')
     A(r'^<(\{closure@[^}]*\}) as (?:std::ops::)?Fn(?:Mut|Once)?<.*>>::call(?:_mut|_once)?$', m_closure_call, 'closure call (inlined body)')
     A(r'^(?:std::option::)?Option::<.*>::map_or::<.*>$', m_option_map_or, 'Option::map_or')
+    A(r'^(?:std::option::)?Option::<.*>::map::<.*>$', m_option_map, 'Option::map')
+    A(r'^core::slice::<impl \\[.*\\]>::(get|first|last)(?:::<usize>)?$', m_slice_get, 'slice get/first/last')
+    A(r'^(?:std::)?char::methods::<impl char>::to_digit$', m_char_to_digit, 'char::to_digit (constant radix)')
     A(r'^(?:std::option::)?Option::<.*>::(is_some|is_none)$', m_option_is, 'Option::is_some/is_none')
     A(r'^(?:std::option::)?Option::<.*>::(unwrap|expect)$', m_option_unwrap, 'Option::unwrap/expect')
     A(r'^(?:std::option::)?Option::<.*>::unwrap_or$', m_option_unwrap_or, 'Option::unwrap_or')
@@ -690,9 +868,12 @@ def register(ex):
     A(r'^<([iu](?:8|16|32|64|128|size)) as (?:std::convert::)?From<([iu](?:8|16|32|64|128|size)|bool)>>::from$', m_from_int, 'integer From (widening)')
     A(r'^core::num::<impl ([iu](?:8|16|32|64|128|size))>::checked_(add|sub|mul)$', m_checked, 'checked_add/sub/mul')
     A(r'^core::num::<impl ([iu](?:8|16|32|64|128|size))>::wrapping_(add|sub|mul)$', m_wrapping, 'wrapping_add/sub/mul')
-    A(r'^core::num::<impl (u(?:8|16|32|64|128|size))>::saturating_sub$', m_saturating_sub, 'saturating_sub (unsigned)')
+    A(r'^core::num::<impl ([iu](?:8|16|32|64|128|size))>::overflowing_(add|sub|mul)$', m_overflowing, 'overflowing_add/sub/mul')
+    A(r'^core::num::<impl ([iu](?:8|16|32|64|128|size))>::saturating_(add|sub|mul)$', m_saturating, 'saturating_add/sub/mul')
+    A(r'^core::num::<impl ([iu](?:8|16|32|64|128|size))>::(count_ones|leading_zeros|trailing_zeros|is_power_of_two|abs|unsigned_abs)$', m_bits, 'integer bit/abs helpers')
+    A(r'^<([iu](?:8|16|32|64|128|size)) as (?:std::cmp::)?Ord>::(max|min)$', m_int_minmax_method, 'Ord::max/min on integers')
+    A(r'^(?:core::num::<impl (u8)>|(?:std::)?char::methods::<impl (?:char)>)::(is_ascii\w*|to_ascii_lowercase|to_ascii_uppercase|eq_ignore_ascii_case)$', m_ascii_pred, 'u8/char ASCII predicates and case mapping')
     A(r'^(?:std|core)::cmp::(?:max|min)::<(.*)>$', lambda ex, m, a, g, s, c: m_minmax(ex, re.match(r'(.*) (max|min)', '%s %s' % (m.group(1), 'max' if '::max::' in c else 'min')), a, g, s, c), 'cmp::max/min on integers')
-    A(r'^core::num::<impl u8>::(is_ascii|is_ascii_graphic|is_ascii_digit)$', m_is_ascii, 'u8::is_ascii*')
     A(r'^<\[u8\] as (?:std::ops::)?Index<(?:std::ops::)?Range<usize>>>::index$', m_slice_index_range, '<[u8]>::index(Range)')
     A(r'^core::slice::<impl \[.*\]>::(len|is_empty)$', m_slice_len, 'slice len/is_empty')
     A(r'^<(?:std::ops::)?Range<usize> as (?:std::iter::)?ExactSizeIterator>::len$', m_range_len, 'Range<usize>::len')
@@ -701,12 +882,13 @@ def register(ex):
     A(r'^core::bool::<impl bool>::then_some::<.*>$', m_then_some, 'bool::then_some')
     A(r'^(?:std::)?char::(?:methods::<impl char>::)?from_u32$', m_char_from_u32, 'char::from_u32')
     A(r'^(?:std::)?char::methods::<impl char>::encode_utf8$', m_encode_utf8, 'char::encode_utf8 (length exact, bytes unconstrained)')
-    A(r'^core::slice::<impl \[u8\]>::iter$', m_slice_iter, 'slice::iter')
+    A(r'^core::slice::<impl \[.*\]>::iter$', m_slice_iter, 'slice::iter')
     A(r'^<.*as (?:std::iter::)?Iterator>::(copied|enumerate|peekable)(?:::<.*>)?$', m_iter_adapt, 'Iterator::copied/enumerate/peekable over a slice')
     A(r'^<(?:std::iter::)?Peekable<.*Iter<.*u8>.*> as (?:std::iter::)?Iterator>::next$', m_iter_next, 'Peekable<..slice::Iter<u8>>::next')
     A(r'^<(?:std::slice::)?Iter<.*u8> as (?:std::iter::)?Iterator>::next$', m_iter_next, 'slice::Iter<u8>::next')
     A(r'^(?:std::iter::)?Peekable::<.*Iter<.*u8>.*>::peek$', m_iter_peek, 'Peekable::peek')
     A(r'^(?:std::iter::)?Peekable::<.*Iter<.*u8>.*>::next_if::<.*>$', m_iter_next_if, 'Peekable::next_if')
+    A(r'^<(?:std::slice::)?Iter<.*> as (?:std::iter::)?Iterator>::any::<\{closure@.*$', m_iter_any, 'slice::Iter::any with a pure closure')
     A(r'^<(Result|Option)<.*> as (?:std::ops::)?Try>::branch$', m_try_branch, 'Try::branch')
     A(r'^<((?:std::result::)?Result|(?:std::option::)?Option)(<.*>) as (?:std::ops::)?FromResidual<.*>>::from_residual$',
       lambda ex, m, a, g, s, c: m_from_residual(ex, re.match(r'(\w+)(.*)$', strip_paths(m.group(1)) + m.group(2)), a, g, s, c), 'FromResidual::from_residual (no error conversion)')
